@@ -1,8 +1,10 @@
+import Driver.Drv.CFHeaders
 import Driver.Drv.Lru
 import Driver.Drv.Store
 namespace Driver
 
 def drivers : List (String × CaseFn) := [
+  ("cfheaders", Driver.Drv.CFHeaders.runCase),
   ("lru", Driver.Drv.Lru.runCase),
   ("store", Driver.Drv.Store.runCase)]
 
